@@ -130,6 +130,8 @@ claims = {
             "Codec model: lz4 identity, crc64 constant. Chains starting at TXID 1 are assumed growth-complete.", "DESIGN.md 5 (C06), Appendix D.3"),
     "C19": ("The real sortSnapshotsV3ByCreatedAt, findBestSnapshotV3, filterWALSegmentsV3, applyWALSegmentsV3, appendWALSegmentV3, RestoreV3 (over the file-system model) and shouldUseV3Restore/TimeBoundsV3/findBestLTXSnapshotForTimestamp are executed symbolically over legacy layouts with every segmentation of IDX WAL indexes into 1-2 segments of 1-2 bytes, any one segment removed, symbolic snapshot/segment/LTX ages and requested time. Asserted: the snapshot used is the newest eligible; the filter keeps exactly the eligible segments; a listing that is not one contiguous run from (snapshot index,0) is an error with no output and no temp file; a contiguous run reassembles each WAL byte-exactly; the format with the more recent eligible backup is chosen.",
             "SQLite's application of the reassembled WAL is cut out (checkpointV3 stand-in, also in the native twin). Contiguity is what a listing can show.", "DESIGN.md 5 (C19), 7 (H7)"),
+    "C16": ("The real applyNewLTXFiles and fillFollowGap are executed symbolically over every set of N files at levels 0-2 with symbolic ranges and every current TXID: each poll applies a valid chain from the current TXID, returns its end, never regresses, and N+1 polls reach the furthest TXID any chain reaches. The real applyLTXFile (real ltx decoder) is checked on a database file: pages at their offsets, size cut to the commit, only header bytes 18-19/24-27 rewritten, file flushed. The real follow loop with WriteTXIDFile/ReadTXIDFile runs over the file-system model with the process killed before every mutating operation: the sidecar always parses, is never ahead of the applied TXID, never regresses, and a restart resumes from it with a connecting file and converges.",
+            "The follower's applied TXID in the kill harness is a ghost recorded at the applyLTXFile cut; kill points are file-system operations of the follower only.", "DESIGN.md 5 (C16)"),
 }
 na_reasons = {
     "C12": "quantifies over goroutine interleavings and the Go memory model; a sequential SSA symbolic interpreter cannot soundly decide races or deadlocks and no concurrency-aware engine for Go exists in this image (DESIGN.md 6)",
@@ -186,8 +188,26 @@ props["C19"] = {
     "outside": ["more than IDX WAL indexes / 2 segments per index", "decompression and SQLite's application of the WAL", "multiple generations in RestoreV3 (snapshot choice across generations is covered by VxC19Select's sort/choose)"],
 }
 
+props["C16"] = {
+    "level": "model_checking", "validate": 6,
+    "runs": [
+        run("root", "VxC16Poll", {"N": 3, "M": 4}, {"N": 4, "M": 5}),
+        run("root", "VxC16Apply", {}, {}),
+        run("root", "VxC16Follow", {}, {}),
+    ],
+    "assumptions": [
+        "level-0 files are single-TXID; a backend lists a level sorted by (min,max) and honours the seek TXID like the file backend (MinTXID >= seek)",
+        "environment cut in VxC16Poll/VxC16Follow: applyLTXFile is replaced by a recorder of the applied file (its real body is checked by VxC16Apply); the follow loop's ticker is always ready and the context is cancelled by the replica mock after a fixed number of polls",
+        "process kill = stop immediately before a file-system mutating operation (create, write, rename, unlink, truncate); nothing else of the process survives",
+        "codec model as in C06 (lz4 identity, crc64 constant); fcntl byte-range locks always granted; crypto/rand yields arbitrary bytes",
+    ],
+    "stubs": ["ReplicaClient mock (sorted iterator with seek)", "applyLTXFile recorder (source rewrite, same stand-in natively)", "file-system model (symfs) with kill points", "time.Ticker always ready", "log/slog no-op"],
+    "outside": ["page-level equality with an ordinary restore on a real database", "the exclusive byte-range lock against concurrent SQLite readers", "Restore's snapshot-bounds validation of the sidecar TXID before resuming", "more than N files per poll harness"],
+}
+
 rewrites = [
     {"file": "replica.go", "from": "func checkpointV3(", "to": "func checkpointV3Real("},
+    {"file": "replica.go", "from": "func (r *Replica) applyLTXFile(", "to": "func (r *Replica) applyLTXFileReal("},
 ]
 
 spec = {"repo": "/repo", "groups": groups, "properties": props, "rewrites": rewrites}
